@@ -156,7 +156,7 @@ pub fn run_c01(a: &Args) {
 pub fn run_c04(a: &Args) {
     let mut rng = Rng::new(a.seed);
     let check = |compressed: bool, buf: &[u8], st: &mut Stats| -> String {
-        let d = decode_buf(compressed, buf);
+        let d = watched("Codec::decode", || format!("{} {}", mode_tag(compressed), hex(buf)), || decode_buf(compressed, buf));
         let id = format!("{} {}", mode_tag(compressed), hex(buf));
         let ann = if buf.is_empty() { 0 } else { buf[0] as usize * if compressed { 4 } else { 1 } };
         let max = if compressed { 1020 } else { 255 };
